@@ -143,6 +143,9 @@ def build_archive(case):
         kw = dict(a.get("kw", {}))
         if a["method"] == "kmeans":
             kw["samples"] = a["samples"]
+            if a.get("samples_array"):
+                # the documented other form: the caller supplies the sample points (fixed here); the seed still has to reach k-means
+                kw["samples"] = np.random.default_rng(4711).uniform(-1.0, 1.0, (int(a["samples"]), MDIM))
         return g["RecCVT"](solution_dim=d, cells=a["cells"], ranges=[(-1.0, 1.0)] * MDIM, seed=a["seed"], centroid_method=a["method"],
                            use_kd_tree=a.get("kd", True), **kw)
     if a["kind"] == "sliding":
@@ -606,7 +609,7 @@ def model_case_sx(case):
     if a["kind"] == "grid":
         ak = [0]
     elif a["kind"] == "cvt":
-        ak = [1, {"kmeans": 0, "random": 2, "sobol": 3, "scrambled_sobol": 4, "halton": 5}[a["method"]], a.get("samples", 0)]
+        ak = [1, {"kmeans": 0, "random": 2, "sobol": 3, "scrambled_sobol": 4, "halton": 5}[a["method"]], 0 if a.get("samples_array") else a.get("samples", 0)]      # samples given as an array: nothing is drawn for them
     elif a["kind"] == "sliding":
         ak = [2]
     else:
@@ -872,6 +875,7 @@ def gen_archive(rng, kind=None, method=None):
         a = {"kind": "cvt", "method": m, "cells": rng.choice([6, 8, 12]), "seed": seed, "kd": rng.random() < 0.7}
         if m == "kmeans":
             a["samples"] = rng.choice([40, 60, 90])
+            a["samples_array"] = rng.random() < 0.5
         return a
     if kind == "sliding":
         return {"kind": "sliding", "dims": [rng.choice([3, 4]), rng.choice([3, 4])], "seed": seed, "remap": rng.choice([5, 7, 11]), "buffer": rng.choice([10, 20])}
